@@ -199,7 +199,7 @@ package collection
 //@   ensures_panic false
 
 //@ func (tw *TimingWheel) scanAndRunTasks
-//@   property C12
+//@   property C12 C16
 //@   requires wheelOK(tw) && timersOK(tw) && liveOK(tw) && itemsOK(tw)
 //@   requires l == tw.slots[tw.tickedPos]
 //@   ensures  wheelOK(tw) && timersOK(tw) && liveOK(tw) && itemsOK(tw)
